@@ -71,6 +71,7 @@ def main():
     ap.add_argument("--jobs", type=int, default=12)
     ap.add_argument("--out", default="/tmp/mutsweep.json")
     ap.add_argument("--limit", type=int, default=0)
+    ap.add_argument("--from", dest="prev", default="", help="re-run only the survivors of an earlier sweep")
     a = ap.parse_args()
     fp = file_props()
     files = [f for f in (a.files.split(",") if a.files else sorted(fp)) if f]
@@ -78,7 +79,11 @@ def main():
     allprops = sorted({p for f in files for p in fp.get(f, [])})
     base_raw = run_props(allprops)
     base = {p: {key(o) for o in obs} for p, obs in base_raw.items()}
+    subprocess.run([os.path.join(VERIF, "run.sh"), "build"], check=True)
     muts = []
+    if a.prev:
+        muts = [{k: m[k] for k in ("file", "func", "line", "kind", "off", "end", "old", "new")} for m in json.load(open(a.prev)) if m["status"] == "survived"]
+        files = []
     for f in files:
         r = subprocess.run([MUTGEN, f], cwd=REPO, capture_output=True, text=True)
         for m in (json.loads(r.stdout) or []):
